@@ -42,6 +42,14 @@ CLAIMED = {
   "Runtime monitoring with an exhaustively enumerated sub-space: widths 1-5 x slides 1-5 x all in-order streams of 6 (quick) / 7-8 (thorough) arrivals with gaps 0..width+2, streams at timestamps up to 2^61, and long random streams, driven through the callback, the channel, WindowRunner and a consumer thread; every reported content must equal the items of one aligned interval [c-w,c) with c <= trigger, triggers strictly increase, intervals are non-decreasing, and under the completeness premise every closed non-empty interval is reported exactly once.",
   "Trusted: M-WINDOW (i128 interval arithmetic in c09.rs). Never-populated intervals may be reported 0 or 1 times (see DESIGN 4/C09).",
   "runtime monitor: exhaustive small streams + random long streams against an interval oracle", '4/C09'),
+ 'C10': ('exploration',
+  "Runtime monitoring with schedule perturbation: single-window continuous queries built through RSPBuilder (RSTREAM / ISTREAM / DSTREAM, widths 1-8, slides 1-4, 10 BGP shapes, 0-3 rules of 10 kinds incl. rules whose conclusion also arrives as a raw item) are fed exhaustively enumerated short streams and random streams; a probe window with identical parameters tells what each firing's content was, and the consumer output must be, firing by firing, R2S(eval(query, content + least fixpoint of the rules over content)). Every input runs single-threaded and multi-threaded under free, sleepy, lock-step, backlog and hold-all schedules driven through the cfg(kolibrie_verif) yield points; quiescence is logical (the worker has drained its channel), outputs of all schedules must coincide with the single-thread output. Evidence counts hook events and distinct hook-event orders.",
+  "Trusted: the probe WindowRunner (itself checked by C09), kvcore::mdatalog, the BGP evaluator of c10.rs. OS preemption inside critical sections is not controlled; ON_CONTENT_CHANGE / PERIODIC report strategies are not driven.",
+  "runtime monitor: per-firing reference (probe window + Datalog + R2S) and single-/multi-thread differential under hook-driven schedule perturbation", '4/C10'),
+ 'C11': ('exploration',
+  "Runtime monitoring: multi-window continuous queries (1-3 windows on different / shared / variable streams, optional static data, shared vocabulary with stream-specific subjects, policies Wait / Steal / Timeout, single- and multi-thread mode under hook-driven schedules) are run through RSPBuilder/RSPEngine next to one probe window per stream; every emitted row, restricted to one WINDOW block, must be an answer of that block over a content this very window had reported before the emission, and its static part an answer over the static data alone. A failing row is attributed by where its ground triples exist (other stream, other window on the same stream, static data, nowhere, ...).",
+  "Trusted: probe windows (C09), the lexical instantiate-and-contain oracle of c11.rs. Soundness only (missing rows are outside the property).",
+  "runtime monitor: provenance check of every emitted row against per-window probe contents, under schedule perturbation", '4/C11'),
  'C12': ('exploration',
   "Runtime monitoring: incremental_sds_plus is driven step by step (its own output fed forward) over exhaustively enumerated small histories (all 32x32 arrival patterns of two streams x 4 rule sets x 3 evaluation grids, complete in the quick tier) and tens of thousands of generated window-consistent histories (renewals just before / at / after expiry, triples in several windows, static graphs, recursion, several derivations with different lifetimes); at every evaluation time the per-component fact sets are compared with the least model over the alive facts (kvcore::mdatalog) and every stored expiry with a threshold sweep over the distinct base expiries (independent of ExpirationProvenance); naive_sds_plus is a second opinion.",
   "Trusted: kvcore::mdatalog, the alive-fact computation and threshold sweep in c12.rs. Positive rules only; histories are generated according to the window-content rule stated in the quantifier rather than produced by the S2R operators.",
@@ -50,6 +58,10 @@ CLAIMED = {
   "Runtime monitoring: the five loaders are driven with documents rendered by harness writers (sizes across the 1000-line / 8192-triple chunk boundaries, prefix declarations at the top / repeated / per block, ; and , groups, multi-line statements, CRLF, comments, duplicates) into seven kinds of prior database inside rayon pools of 1, 2, 4 and 16 threads; the lexical snapshot after the load must equal the snapshot before plus exactly the triples the writer recorded, the same triples in different formats must load identically, results must not depend on the pool size, and a second load must be idempotent. Failures are attributed by re-loading 1000-line blocks in isolation and by re-runs that vary size / prior / threads.",
   "Trusted: the document writers of c13.rs (the oracle is what the writer recorded, no parser involved). Blank nodes, escapes, language tags and datatypes are left to C14.",
   "runtime monitor: writer-recorded triple sets vs. lexical snapshots across chunk boundaries, priors, formats and thread pools", '4/C13'),
+ 'C15': ('exploration',
+  "Runtime monitoring with online shadow bijections: random call sequences on Dictionary / QuotedTripleStore / encode_term_star (adversarial strings, nested quoted terms in five spellings, ids at the range limits) are checked after every call against a shadow map (same term same id, fresh ids never reused, high bit iff quoted, decode inverse, earlier ids unchanged); unions of 2-3 independently built databases with clashing ids (quads, named-graph catalog incl. empty graphs, nested quoted terms, probability seeds, chains and self-unions) are compared with the set union of lexical models, and both inputs must be bit-for-bit unchanged.",
+  "Trusted: the shadow maps and lexical models of c15.rs. A term is its lexical value (untyped store).",
+  "runtime monitor: shadow-map bijection checker + lexical set-union oracle for database union", '4/C15'),
  'C16': ('exploration',
   "Runtime monitoring in crash-isolated worker processes (8 MB stack): totality - nesting ladders up to depth 100000 for 22 recursive constructs, every multi-byte character inserted / every truncation and deletion at every offset of seed requests, word swaps, boundary numbers and 11 mutation kinds, through 20 parser entry points; a dead worker, a panic or accepted-but-unconsumed input is a violation. Faithfulness - generated SELECT / update trees are printed token by token with every term class, ; , lists, random layout, comments and keyword case, and the parsed shared::query tree must equal the tree's structural normal form.",
   "Trusted: the token printer and normal form of c16.rs. Extension grammars (RULE, REGISTER, MODEL, ...) appear only in the totality workloads.",
